@@ -315,12 +315,19 @@ def run_pending(case, res):
 
 def run_nocancel(case, res):
     F = instr.ME.futures
-    for how in ("value", "exc", "pending-cancel", "cancel-then-value", "cancel-twice-threads", "inner-cancelled-then-cancel"):
+    hows = ["value", "exc", "pending-cancel", "cancel-then-value", "cancel-twice-threads", "inner-cancelled-then-cancel"]
+    # the same with the shielded future already running when it is wrapped (its cancel() is still never to be called:
+    # futures of this library, e.g. a retry in progress, react to a request even while running)
+    for how, running in [(h, False) for h in hows] + [(h, True) for h in hows if h != "inner-cancelled-then-cancel"]:
         begin("rt")
         ctx = Ctx()
         try:
             spy = SpyFuture("in")
+            if running:
+                spy.set_running_or_notify_cancel()
             nc = F.f_nocancel(spy)
+            if nc is spy:
+                res.violation("nocancel-not-wrapped", "f_nocancel(f) handed back f itself (%s, f %s)" % (how, "running" if running else "pending"))
             e = UserErrorA("x")
             rets = []
             if how == "value":
@@ -360,9 +367,39 @@ def run_nocancel(case, res):
                 res.violation("nocancel-outcome", "f_nocancel mirrors %s, input failed with %r" % (outcome_repr(o), e))
             if how == "pending-cancel" and (nc.cancelled() or nc.done()):
                 res.violation("nocancel-cancelled", "f_nocancel future is %s after cancel() on a pending input" % outcome_repr(o))
-            res.key("nocancel", how)
+            res.key("nocancel", how, running)
         finally:
             end(ctx)
+    # wrappers stacked on a proxy whose future fails later: the outer wrapper mirrors the failure
+    for outer in ("nocancel", "proxy", "proxy+nocancel"):
+        for when in ("later", "before"):
+            begin("rt")
+            ctx = Ctx()
+            try:
+                g = SpyFuture("g")
+                e = UserErrorA("g failed")
+                if when == "before":
+                    g.set_exception(e)
+                try:
+                    inner = F.f_proxy(g)
+                    w = F.f_nocancel(inner) if outer == "nocancel" else F.f_proxy(inner, timeout=2.0)
+                    if outer == "proxy+nocancel":
+                        w = F.f_nocancel(w)
+                except BaseException as ex:
+                    res.violation("wrapper-constructor-raised/%s" % type(ex).__name__,
+                                  "%s over f_proxy(g) with g already failed raised %r at construction" % (outer, ex))
+                    res.execs += 1
+                    continue
+                if when == "later":
+                    g.set_exception(e)
+                res.execs += 1
+                o = outcome(w)
+                if o[0] != "exc" or o[1] is not e:
+                    res.violation("nested-wrapper-outcome", "%s over f_proxy(g): g failed (%s the wrappers were made) with %r, the outer wrapper is %s"
+                                  % (outer, when, e, outcome_repr(o)))
+                res.key("nested-wrapper", outer, when)
+            finally:
+                end(ctx)
 
 
 def run_case(case, res):
